@@ -378,8 +378,9 @@ def linkify(
 
             if url != before_clip:
                 amp = url.rfind("&")
-                # avoid splitting html char entities
-                if amp > max_len - 5:
+                # avoid splitting html char entities: the text is escaped
+                # before matching, so every "&" starts an entity ending in ";"
+                if amp != -1 and ";" not in url[amp:]:
                     url = url[:amp]
                 url += "..."
 
